@@ -85,7 +85,8 @@ pub uninterp spec fn char_count_spec(g: Grapheme, escaped: bool) -> nat;       /
 pub uninterp spec fn count_char(s: Seq<char>, c: char) -> nat;                 // str::matches(c).count()
 pub open spec fn value_text(g: Grapheme) -> Seq<char> { if g.repetitions@.len() == 0 { joined(g.chars@) } else { joined_shown(g.repetitions@) } }
 // one regex atom: a single code point, or one string holding a single escape sequence (\d, \n, \u{..}); only then may a quantifier follow without a group
-pub open spec fn single_atom(g: Grapheme) -> bool { char_count_spec(g, false) == 1 || (g.chars@.len() == 1 && count_char(g.chars@[0]@, '\\') == 1) }
+pub uninterp spec fn single_escape(s: Seq<char>) -> bool;                     // is_single_escape_sequence (grapheme.rs): decided in unit `atom` (F13)
+pub open spec fn single_atom(g: Grapheme) -> bool { char_count_spec(g, false) == 1 || (g.chars@.len() == 1 && single_escape(g.chars@[0]@)) }
 pub open spec fn quantified(g: Grapheme) -> bool { g.min < g.max || g.min > 1 }
 pub open spec fn quant_comp(g: Grapheme, verbose: bool) -> Component { if g.min < g.max { Component::RepetitionRange(g.min, g.max, verbose) } else { Component::Repetition(g.min, verbose) } }
 pub open spec fn grapheme_plain(g: Grapheme) -> Seq<char> {
